@@ -779,6 +779,19 @@ func ruleR7_6(r *Run) {
 							direct = true
 						}
 					}
+					// a request field passed through a string transformation (strings.TrimSpace, ToLower …) is still
+					// request-controlled; a guard on the untransformed text does not speak about the value passed on
+					if sc, ok := rv.V.(*ssa.Call); ok {
+						if callee := sc.Call.StaticCallee(); callee != nil && callee.Pkg != nil && callee.Pkg.Pkg.Path() == "strings" {
+							for _, a := range sc.Call.Args {
+								if u, ok := a.(*ssa.UnOp); ok {
+									if _, ok := u.X.(*ssa.FieldAddr); ok {
+										direct = true
+									}
+								}
+							}
+						}
+					}
 				}
 				if !direct {
 					continue
